@@ -9,7 +9,7 @@
        pointing into the selected events (spec_pairs).
    crit_of gives the documented (source, event) criterion of a method tree; an
    intersection qualifies a pair when both parts do. *)
-From Coq Require Import ZArith List Bool.
+From Coq Require Import ZArith List Bool Sorting.Sorted.
 From Sky Require Import M_Select.
 Import ListNotations.
 Local Open Scope nat_scope.
@@ -48,3 +48,35 @@ Fixpoint wf_meth {S E} (m : meth S E) (ns : nat) : Prop :=
   | MAnd a b => wf_meth a ns /\ wf_meth b ns
   | _ => True
   end.
+
+(* index-level reading of a (source, event) criterion: pair (k, j) qualifies
+   when source k and event j exist and the criterion holds for them *)
+Definition cidx {S E} (c : S -> E -> bool) (srcs : list S) (evs : list E)
+           (k j : nat) : bool :=
+  match nth_error srcs k, nth_error evs j with
+  | Some s, Some e => c s e
+  | _, _ => false
+  end.
+
+(* an incoming (source, event) table restricts the pairs a method may keep *)
+Definition inc_has (inc : option tbl) (k j : nat) : bool :=
+  match inc with
+  | None => true
+  | Some t => existsb (fun q => (fst q =? Z.of_nat k)%Z && (snd q =? Z.of_nat j)%Z) t
+  end.
+
+(* what a method hands to the next one: strictly ascending by (source, event)
+   (so duplicate-free and grouped by ascending source), indices in range, every
+   event listed for at least one source *)
+Definition tbl_ok (ns ne : nat) (t : tbl) : Prop :=
+  Sorted.StronglySorted lexlt t
+  /\ (forall p, In p t -> (0 <= fst p < Z.of_nat ns)%Z /\ (0 <= snd p < Z.of_nat ne)%Z)
+  /\ (forall j, j < ne -> exists k, In (Z.of_nat k, Z.of_nat j) t).
+
+Definition inc_ok (ns ne : nat) (inc : option tbl) : Prop :=
+  match inc with None => True | Some t => tbl_ok ns ne t end.
+
+(* the pair criterion a method tree applies, given the incoming table *)
+Definition cix {S E} (m : meth S E) (inc : option tbl) (srcs : list S) (evs : list E)
+           (k j : nat) : bool :=
+  inc_has inc k j && cidx (crit_of m (length srcs)) srcs evs k j.
